@@ -274,3 +274,14 @@ def _ptrish(e):
     if k == 'int':
         return False
     return k in ('param', 'local', 'global', 'field', 'idx', 'call', 'cast')
+
+
+def nocast(e):
+    """copy of e with every cast / paren removed (for cast-insensitive comparison)"""
+    if not isinstance(e, list) or not e:
+        return e
+    if e[0] == 'cast':
+        return nocast(e[4])
+    if e[0] == 'paren':
+        return nocast(e[1])
+    return [nocast(x) if isinstance(x, list) else x for x in e]
